@@ -46,6 +46,14 @@ CONSTANTS
     Ranks       \* Ranks[i] = byte-order rank of the identity preimage at queue position i of an eon
                 \* (a repeated rank is the same identity submitted twice)
 
+(* StaleKeys: what interceptDecryptionKeys does with a keys message (without Extra) whose
+   identities are not the current trigger's.
+     "drop"   the tree as it is now (repair out/fixes/C03-1.diff): dropped, like key shares
+     "stamp"  the code as found: the message got the current trigger's slot, pointer and
+              signatures and the pointer advanced by ITS key count
+   (a definition, not a CONSTANT, so that modules extending this one need no new assignment) *)
+StaleKeys == "drop"
+
 Null   == -1      \* tx_pointer.age IS NULL
 NoSlot == 0       \* latestTriggeredSlot = nil (slots are >= 1)
 EonSet == 1..NEons
@@ -53,10 +61,26 @@ EonSet == 1..NEons
 Min2(a, b) == IF a < b THEN a ELSE b
 Max2(a, b) == IF a > b THEN a ELSE b
 
-GasClasses == {"Low", "AtLimit", "Above"}
-GasOf(g) == CASE g = "Low"     -> MinGas
-              [] g = "AtLimit" -> GasLimit
-              [] g = "Above"   -> GasLimit + 1
+(* Gas values.  TLC integers are 32 bit and the gas_limit column is an int64 (the syncer admits
+   every value that fits), so a gas value is a two-limb number  h * 2^62 + l  with a small l
+   (|l| far below 2^62):  Low = MinGas, AtLimit = GasLimit, Above = GasLimit + 1 (all h = 0),
+   Half = 2^62, Max1 = MaxInt64 - 1 = 2*2^62 - 2, Max = MaxInt64 = 2*2^62 - 1. *)
+GasClasses == {"Low", "AtLimit", "Above", "Half", "Max1", "Max"}
+Gas(h, l) == [h |-> h, l |-> l]
+GasOf(g) == CASE g = "Low"     -> Gas(0, MinGas)
+              [] g = "AtLimit" -> Gas(0, GasLimit)
+              [] g = "Above"   -> Gas(0, GasLimit + 1)
+              [] g = "Half"    -> Gas(1, 0)
+              [] g = "Max1"    -> Gas(2, -2)
+              [] g = "Max"     -> Gas(2, -1)
+GasZero == Gas(0, 0)
+(* mathematical sum and comparison with the (small) encrypted gas limit *)
+GasAdd(a, b) == Gas(a.h + b.h, a.l + b.l)
+GasExceeds(a, lim) == a.h > 0 \/ (a.h = 0 /\ a.l > lim)
+(* newslot.go: gas += uint64(event.GasLimit) on a uint64: wraps at 2^64 = 4 * 2^62.  (A signed
+   int64 sum would wrap at 2^63 already: Low + Max is negative and never "> limit".) *)
+U64Add(a, b) == LET s == GasAdd(a, b) IN
+                IF s.h > 4 \/ (s.h = 4 /\ s.l >= 0) THEN Gas(s.h - 4, s.l) ELSE s
 
 ----------------------------------------------------------------------------
 (* identity preimages as tokens; IdLess is bytes.Compare(a, b) < 0 under the assumption the
@@ -107,14 +131,14 @@ GetTxPointer(row, q) ==
 RECURSIVE SelectLoop(_, _, _, _, _)
 SelectLoop(e, evs, i, gas, acc) ==
     IF i > Len(evs) THEN acc
-    ELSE LET g == gas + GasOf(evs[i].g) IN
-         IF g > GasLimit /\ Len(acc) > 1 THEN acc                         \* break
+    ELSE LET g == U64Add(gas, GasOf(evs[i].g)) IN
+         IF GasExceeds(g, GasLimit) /\ Len(acc) > 1 THEN acc              \* break
          ELSE SelectLoop(e, evs, i + 1, g, Append(acc, TxId(e, evs[i])))
 
 GetDecryptionIdentityPreimages(q, s, e, p) ==
     LET limit == (GasLimit \div MinGas) + 1
         evs   == GetTransactionSubmittedEvents(q, p, limit)
-    IN SortIds(SelectLoop(e, evs, 1, 0, <<SlotId(s)>>))
+    IN SortIds(SelectLoop(e, evs, 1, GasZero, <<SlotId(s)>>))
 
 NoTrig == [block |-> 0, ids |-> <<>>]
 
@@ -151,10 +175,13 @@ HandleDecryptionKeys(st, e, p, n, match) ==
 CollectSignatures(st, e) == IF st.cur[e].row THEN [st EXCEPT !.cur[e].signed = TRUE] ELSE st
 
 (* messagingmiddleware.go interceptDecryptionKeys for a keys message without Extra (produced by
-   the keyper core) with n keys; result [st, sent, p] *)
-SendOwnKeys(st, e, n) ==
+   the keyper core) with n keys; stale: its identities are not those of the current trigger (late
+   keys of an earlier trigger); result [st, sent, p] *)
+SendOwnKeys(st, e, n, stale) ==
     LET c == st.cur[e] IN
-    IF ~c.row \/ ~c.signed THEN [st |-> st, sent |-> FALSE, p |-> 0]       \* dropped
+    IF ~c.row THEN [st |-> st, sent |-> FALSE, p |-> 0]                     \* "unknown decryption trigger"
+    ELSE IF stale /\ StaleKeys = "drop" THEN [st |-> st, sent |-> FALSE, p |-> 0]   \* "unexpected identities hash"
+    ELSE IF ~c.signed THEN [st |-> st, sent |-> FALSE, p |-> 0]             \* signature count not high enough
     ELSE [st |-> [st EXCEPT !.ptr[e] = PtrRow(c.ptr + n - 1, 0)],          \* advanceTxPointer
           sent |-> TRUE, p |-> c.ptr]
 
@@ -181,7 +208,8 @@ EnvSwitchEon(env)      == [env EXCEPT !.active = @ + 1, !.block = @ + 1]
                          (m: it is the message for the keyper's own current trigger, p and n are
                          taken from it)
      out     K, e, n, m  the keyper core hands a keys message without Extra to the middleware
-                         (n = 0: as many keys as the current trigger has identities; m: a
+                         (n = 0: the keys of the current trigger's identities; n > 0: n keys
+                         of OTHER identities, a late message of an earlier trigger; m: a
                          threshold of signatures for the current trigger is collected before)
      fwd     K, e, p, n  key shares are received that complete a keys message
                          (DecryptionKeySharesHandler returns it with Extra)
@@ -211,7 +239,7 @@ KeyperStep(st, en, o) ==
       [] o.op = "out" ->
            LET st1 == IF o.m THEN CollectSignatures(st, o.e) ELSE st
                n == IF o.n = 0 THEN (IF st1.cur[o.e].row THEN Len(st1.cur[o.e].ids) ELSE 1) ELSE o.n
-               x == SendOwnKeys(st1, o.e, n)
+               x == SendOwnKeys(st1, o.e, n, o.n # 0)
            IN [st |-> x.st, r |-> [out |-> "keys", trig |-> NoTrig,
                                    msg |-> IF x.sent THEN [ok |-> TRUE, p |-> x.p, n |-> n] ELSE NoMsg]]
       [] o.op = "fwd" ->
